@@ -143,6 +143,9 @@ def run_case(c):
             got = fn(sources, sens, pixel_agg=agg, squeeze=False)
         elif form == "collection":
             got = fn(sources, magpy.Collection(*sens), pixel_agg=agg, squeeze=False)
+        elif form == "nested_collection":   # sensors in a nested Collection tree: pre-order of the tree = order of the list
+            tree = magpy.Collection(magpy.Collection(*sens[:-1]), sens[-1]) if len(sens) > 1 else magpy.Collection(magpy.Collection(sens[0]))
+            got = fn(sources, tree, pixel_agg=agg, squeeze=False)
         elif form == "method":
             got = getattr(sens[0], "get" + field)(*sources, pixel_agg=agg, squeeze=False)
         elif form == "squeezed":
@@ -204,12 +207,12 @@ def enumerate_cases(tier):
         add([c1], AGGS, ("list", "method", "squeezed", "collection"))
     for c1 in cfgs:
         for c2 in (SECOND_MENU if tier == "quick" else cfgs):
-            add([c1, c2], AGGS if tier == "thorough" else [None, "mean", "max", "std"])
+            add([c1, c2], AGGS if tier == "thorough" else [None, "mean", "max", "std"], ("list", "nested_collection"))
     third = THIRD_MENU
     for c1 in (SECOND_MENU if tier == "quick" else cfgs):
         for c2 in SECOND_MENU:
             for c3 in third:
-                add([c1, c2, c3], [None, "min", "median"], ("list", "collection"))
+                add([c1, c2, c3], [None, "min", "median"], ("list", "collection", "nested_collection"))
     # H field on a sub-grid
     for c1 in cfgs[::3]:
         for c in [x for x in [None]]:
